@@ -158,6 +158,14 @@ def dispatch(stmts, ctx, top_level_skip=False, _path=None, _depth=0):
             if v is None:
                 if _always_raises(st.body) and not st.orelse:
                     continue                       # guard
+                if _always_raises(st.body) or (st.orelse and _always_raises(st.orelse)):
+                    # a guard written with its accepting arm attached (if bad: raise / elif ..  or
+                    # if good: <chain> / else: raise): the object goes on into the other arm
+                    other = st.orelse if _always_raises(st.body) else st.body
+                    sub = dispatch(other, ctx, top_level_skip, path, _depth + 1)
+                    if sub is not None:
+                        return sub
+                    continue
                 if _depth == 0 and top_level_skip:
                     continue
                 lf = Leaf(stmts[i:], path)
